@@ -695,6 +695,15 @@ func runKeys(every int) {
 		}
 	}
 	base = append(base, shape{la: true, ff: "predicate"}, shape{la: true, fop: "latest", ff: "predicate"}, shape{la: true, lo: 2, ff: "predicate"})
+	// LatestAnchor together with every upper bound and the last lower bounds: the latest anchor INSIDE a window is not
+	// the latest anchor of the graph (a key that leaves the bounds out when LatestAnchor is set mixes them up)
+	for x := 1; x <= ni; x++ {
+		base = append(base, shape{la: true, hi: x, ff: "predicate"})
+		if x >= ni-1 {
+			base = append(base, shape{la: true, lo: x, ff: "predicate"})
+		}
+	}
+	base = append(base, shape{la: true, lo: 2, hi: ni - 1, ff: "predicate"})
 	pages := [][2]int{{0, 0}, {1, 0}, {1, 1}, {1, 2}, {2, 0}, {2, 1}, {3, 0}}
 	run := 0
 	all := make([]int, u.NT())
